@@ -152,7 +152,7 @@ def gen_case(rng, maxlen):
         elif k < 0.88:
             ops.append(g_beh(rng, plain=plain, glob=glob))
         elif k < 0.91:
-            ops.append("state %d %s" % (rng.randrange(NC), rng.choice(["connected", "disconnected"])))
+            ops.append("state %d %s" % (rng.randrange(NC), rng.choice(["connected", "disconnected", "connecting"])))
         elif k < 0.94:
             ops.append("neg %d %d" % (rng.randrange(NC), rng.randrange(2)))
         elif k < 0.96:
